@@ -58,7 +58,7 @@ var checks = map[string]*Check{
 			{World: "C04b", Race: true, Weight: 1},
 		},
 		Probes:      []string{"id_listed_more_than_once", "concurrent_pollers", "window_relist", "relisted_every_time", "poller_aborted", "half_closed_poller", "backend_reset_after_executing_post_on_reused_connection"},
-		Rule:        "(a) real agent vs scripted fake proxy: pending-list replies repeat/permute/overlap 2..12 (thorough ..60) request IDs, plus a dedup-window leg re-listing an ID after up to 998 other IDs; counting backend; fetch/upload 5xx in the faulty leg. (b) real proxy with 2..5 concurrent harness pollers (some abandoning the list call) and 2..10 (..40) clients; every ID must be reported in exactly one list reply.",
+		Rule:        "(a) real agent vs scripted fake proxy: pending-list replies repeat/permute/overlap 2..12 (thorough ..60) request IDs, plus a dedup-window leg re-listing an ID after up to 998 other IDs; counting backend; fetch/upload 5xx in the faulty leg. (b) real proxy with 2..5 concurrent harness pollers (some abandoning the list call) and 2..10 (..40) clients; every ID must be reported in exactly one list reply. Faulty leg also: a backend that executes a body-less POST and then resets the reused connection before answering (the request must not be sent again); an ID whose fetch answer is slow while the ID is listed again.",
 		Assumptions: commonAssumptions,
 		RealStub:    coreRealStub,
 	},
@@ -79,7 +79,7 @@ var checks = map[string]*Check{
 	"C20": {
 		Legs:        []Leg{{World: "C20", Weight: 1}},
 		Probes:      []string{"health_gated_start", "backend_unhealthy_at_startup", "unhealthy_exit_expected", "graceful_shutdown", "prompt_shutdown", "signal_during_list_call", "response_completed_during_grace", "signal_while_health_gated", "signal_while_list_calls_fail", "second_signal_during_grace_period"},
-		Rule:        "Real agent main() with documented flags vs fake proxy and a backend with a scripted health endpoint: start-up failures / late listener, 0..24 periodic results with 0..80% failures, interval 1/2/5 s, threshold 1..4, health checks on/off; SIGINT or SIGTERM at 0..31 s after the first poll, grace 0/2/10/30 s, backend latency 0..20 s. Reference: consecutive-failure counter with reset; exit instants compared in simulated time (zero network latency).",
+		Rule:        "Real agent main() with documented flags vs fake proxy and a backend with a scripted health endpoint: start-up failures / late listener, 0..24 periodic results with 0..80% failures, interval 1/2/5 s, threshold 1..4, health checks on/off; SIGINT or SIGTERM at 0..31 s after the first poll, grace 0/2/10/30 s, backend latency 0..20 s. Reference: consecutive-failure counter with reset; exit instants compared in simulated time (zero network latency). Also: a signal at a fixed time after start-up (while still health-gated), a second signal during the grace period, a pending-list endpoint that starts failing before the signal, and slow start-up credentials (signal before the first poll).",
 		Assumptions: commonAssumptions,
 		RealStub:    coreRealStub,
 	},
@@ -97,7 +97,7 @@ var checks = map[string]*Check{
 			{World: "C06", Race: true, Weight: 2},
 		},
 		Probes:      []string{"early_5xx_while_body_streaming", "retry_attempt_seen", "backend_answers_late"},
-		Rule:        "Real agent (response forwarder + http.Transport) vs a byte-level fake proxy: per upload attempt a scripted fault {5xx, reset, close, none} at a byte offset of the raw request stream (header block, body offset 0/1/around 4096/anywhere/after the terminating chunk), 5xx answered while the body is still streaming with or without draining; response sizes placing the serialised upload around the 4096-byte replay buffer, tiny and large; SimNet buffers 512 B..64 KiB park the previous attempt's body writer. Oracle: every acknowledged complete attempt parses to exactly the backend's response; at most 3 attempts; no forwarder goroutine blocked at the end.",
+		Rule:        "Real agent (response forwarder + http.Transport) vs a byte-level fake proxy: per upload attempt a scripted fault {5xx, reset, close, none} at a byte offset of the raw request stream (header block, body offset 0/1/around 4096/anywhere/after the terminating chunk), 5xx answered while the body is still streaming with or without draining; response sizes placing the serialised upload around the 4096-byte replay buffer, tiny and large; SimNet buffers 512 B..64 KiB park the previous attempt's body writer. Oracle: every acknowledged complete attempt parses to exactly the backend's response; at most 3 attempts; no forwarder goroutine blocked at the end. The backend may answer only after 2 s / 20 s (every upload attempt may have failed by then: nothing of the finished upload may stay blocked).",
 		Assumptions: commonAssumptions,
 		RealStub:    coreRealStub,
 	},
@@ -118,14 +118,14 @@ var checks = map[string]*Check{
 	"C11": {
 		Legs:        []Leg{{World: "C11", Weight: 3}, {World: "C11", Race: true, Weight: 1}},
 		Probes:      []string{"both_directions", "idle_poll_408", "data_post_more_than_10", "poll_returned_more_than_10", "injection_applied", "concurrent_sessions", "backend_closed_after_last_message", "session_opened_after_another_closed", "close_behind_backlog"},
-		Rule:        "Harness shim client (protocol of the injected script: open, then one data post and one poll outstanding at a time, close) -> real proxy -> real agent (shim handlers, relay goroutines) -> real gorilla websocket backend. one or two concurrent sessions; 0..30 (thorough ..120) messages per direction and session: ASCII/UTF-8 text, arbitrary binary, JSON documents; sizes 0..40 KB (thorough ..1 MiB); batches of 1..25 messages per data post; pauses up to 21 s (idle polls end in 408); protocol version 0/1/absent; header injection on in a third of the runs. Two FIFO reference queues compared at quiescence.",
+		Rule:        "Harness shim client (protocol of the injected script: open, then one data post and one poll outstanding at a time, close) -> real proxy -> real agent (shim handlers, relay goroutines) -> real gorilla websocket backend. one or two concurrent sessions; 0..30 (thorough ..120) messages per direction and session: ASCII/UTF-8 text, arbitrary binary, JSON documents; sizes 0..40 KB (thorough ..1 MiB); batches of 1..25 messages per data post; pauses up to 21 s (idle polls end in 408); protocol version 0/1/absent; header injection on in a third of the runs. Two FIFO reference queues compared at quiescence. Also: browsers running two sessions one after the other while another session is in use, backends that close after their last message, ignore the closing handshake or read slowly behind small socket buffers, and a close issued at once behind a backlog of accepted messages.",
 		Assumptions: commonAssumptions,
 		RealStub:    coreRealStub,
 	},
 	"C12": {
 		Legs:        []Leg{{World: "C12", Weight: 3}, {World: "C12", Race: true, Weight: 2}},
 		Probes:      []string{"concurrent_calls", "double_close_same_instant", "data_racing_close", "backend_closed_first", "odd_message_types", "backend_ignores_closing_handshake", "overlapping_opens", "stalled_backend_on_other_session", "data_after_backend_closed"},
-		Rule:        "1..2 shim sessions and 2..10 data/poll/close calls with valid, unknown, malformed and empty arguments, most of them issued at the same simulated instant so that the scheduler interleaves them at the yield points inside the shim handlers and the connection (data vs close, close vs close, poll vs backend close); in a third of the runs the backend sends 0..14 messages and closes first. Every call must be answered with 200/400/408/500; calls after an answered close must get 400; crash monitor + race-detector leg.",
+		Rule:        "1..2 shim sessions and 2..10 data/poll/close calls with valid, unknown, malformed and empty arguments, most of them issued at the same simulated instant so that the scheduler interleaves them at the yield points inside the shim handlers and the connection (data vs close, close vs close, poll vs backend close); in a third of the runs the backend sends 0..14 messages and closes first. Every call must be answered with 200/400/408/500; calls after an answered close must get 400; crash monitor + race-detector leg. Also: overlapping opens against a slow handshake, a backend that ignores the closing handshake, a data call seconds after the backend closed (must be 400 when nothing was queued), and a second session whose calls must be answered while the first session's backend has stopped reading.",
 		Assumptions: commonAssumptions,
 		RealStub:    coreRealStub,
 	},
@@ -139,7 +139,7 @@ var checks = map[string]*Check{
 	"C10": {
 		Legs:        []Leg{{World: "C10", Weight: 3}, {World: "C10/lru", Weight: 1}, {World: "C10", Race: true, Weight: 2}, {World: "C10/lru", Race: true, Weight: 1}},
 		Probes:      []string{"session_issued", "cookies_restored", "concurrent_sessions", "lru_eviction", "late_response_after_eviction", "interim_1xx", "public_suffix_domain_cookie", "session_cookie_presented_twice", "follow_up_before_body_is_read", "concurrent_requests_in_uncached_session"},
-		Rule:        "1..4 (LRU leg: 3..6 with a window of 2) modelled browsers send 2..8 scripted requests over three hosts and four paths through real proxy and agent (-session-cookie-name) to a backend emitting generated Set-Cookie operations (set, overwrite, Path/Domain scoped, Max-Age, Secure/HttpOnly, delete, expired), with simulated gaps across expiry instants, then a burst of concurrent requests in all sessions plus two in one session. Reference: one independent net/http/cookiejar per modelled session on the same clock; values carry the session's tag so any foreign value is a leak.",
+		Rule:        "1..4 (LRU leg: 3..6 with a window of 2) modelled browsers send 2..8 scripted requests over three hosts and four paths through real proxy and agent (-session-cookie-name) to a backend emitting generated Set-Cookie operations (set, overwrite, Path/Domain scoped, Max-Age, Secure/HttpOnly, delete, expired), with simulated gaps across expiry instants, then a burst of concurrent requests in all sessions plus two in one session. Reference: one independent net/http/cookiejar per modelled session on the same clock; values carry the session's tag so any foreign value is a leak. Also: interim 1xx before the final response, Domain=<public suffix> cookies on hosts under one- and two-label suffixes, clients presenting the session cookie twice, a follow-up request issued as soon as the response header has arrived (with a 200 KB banner page still unread), and two simultaneous requests of a session that has dropped out of the cache.",
 		Assumptions: commonAssumptions,
 		RealStub:    coreRealStub,
 	},
@@ -153,14 +153,14 @@ var checks = map[string]*Check{
 	"C07": {
 		Legs:        []Leg{{World: "C07", Weight: 3}, {World: "C07fp", Weight: 3}, {World: "C07", Race: true, Weight: 2}, {World: "C07fp", Race: true, Weight: 1}},
 		Probes:      []string{"failures_among_healthy_requests", "backend_unreachable_502", "shim_enabled", "proxy_side_failures_among_healthy_requests"},
-		Rule:        "(real-proxy leg) 2..8 healthy concurrent requests next to 1..5 sabotaged ones: backend reset before headers / mid body, close mid chunk, garbage instead of HTTP, malformed header or chunk, hang then close, malformed shim input (open/data/poll/close) when the shim is on; then a window with every backend dial refused (client must get 502); then a probe. (fake-proxy leg) pending lists with 5xx / garbled JSON / HTML / > 1 MB replies between good ones, fetches rejected, truncated, garbage, without or with a bad start time, reset; uploads rejected or reset - each for chosen request IDs only; healthy IDs and a later probe must be served. Crash monitor and race-detector legs.",
+		Rule:        "(real-proxy leg) 2..8 healthy concurrent requests next to 1..5 sabotaged ones: backend reset before headers / mid body, close mid chunk, garbage instead of HTTP, malformed header or chunk, hang then close, malformed shim input (open/data/poll/close) when the shim is on; then a window with every backend dial refused (client must get 502); then a probe. (fake-proxy leg) pending lists with 5xx / garbled JSON / HTML / > 1 MB replies between good ones, fetches rejected, truncated, garbage, without or with a bad start time, reset; uploads rejected or reset - each for chosen request IDs only; healthy IDs and a later probe must be served. Crash monitor and race-detector legs. Shim sabotage also: data posts racing the close of the same session (with a backend that has stopped reading), a backend that says goodbye and hangs up before the first poll; fake-proxy leg: uploads answered early (400/503) while the response is still streaming.",
 		Assumptions: commonAssumptions,
 		RealStub:    coreRealStub,
 	},
 	"C15": {
 		Legs:        []Leg{{World: "C15", Weight: 3}, {World: "C15", Race: true, Weight: 1}},
 		Probes:      []string{"both_directions_at_once", "concurrent_connections", "stream_larger_than_64k", "passthrough_request", "server_speaks_first", "slow_reader_with_bulk_data", "orderly_end_of_both_directions"},
-		Rule:        "TCP clients -> real tcp-bridge-frontend main() -> websocket over SimNet through the real h2c-wrapped tcp-bridge-backend main() -> harness TCP server. 1..4 (thorough ..32) connections, per direction 0..6 writes of 0 B..70 KB (all 256 byte values), reader buffers 1 B..100 KB, both directions at once, SimNet buffers 1..64 KiB and segmentation up to 70%; plus plain HTTP POSTs to the bridge backend for the pass-through clause.",
+		Rule:        "TCP clients -> real tcp-bridge-frontend main() -> websocket over SimNet through the real h2c-wrapped tcp-bridge-backend main() -> harness TCP server. 1..4 (thorough ..32) connections, per direction 0..6 writes of 0 B..70 KB (all 256 byte values), reader buffers 1 B..100 KB, both directions at once, SimNet buffers 1..64 KiB and segmentation up to 70%; plus plain HTTP POSTs to the bridge backend for the pass-through clause. Also: server-speaks-first connections, readers that stall for 1.5 s / 4 s, and connections on which both peers end their direction in an orderly way (half-close, read to the end, close) - nothing may be lost.",
 		Assumptions: commonAssumptions,
 		RealStub: map[string]string{
 			"utils/tcpbridge/tcp-bridge-frontend (main), tcp-bridge-backend (main), connection": "real (instrumented copy of the working tree)",
@@ -174,7 +174,7 @@ var checks = map[string]*Check{
 	"C16": {
 		Legs:        []Leg{{World: "C16", Weight: 1}},
 		Probes:      []string{"one_side_closed_first", "several_connections", "graceful_close_complete_data", "graceful_close_slow_reader_bulk_data"},
-		Rule:        "Same world as C15; per connection the client, the server or both close after their writes with a delay of 0..5 s relative to data in flight in either direction. Liveness in simulated time: the surviving peer must see end-of-stream within 60 s after having received everything sent before the close; SimNet's connection table is the counter for leaked bridge connections.",
+		Rule:        "Same world as C15; per connection the client, the server or both close after their writes with a delay of 0..5 s relative to data in flight in either direction. Liveness in simulated time: the surviving peer must see end-of-stream within 60 s after having received everything sent before the close; SimNet's connection table is the counter for leaked bridge connections. Also: small socket buffers with both directions full when both peers go away (the bridge must still release everything), slow readers, peers that only half-closed earlier and must still receive the rest.",
 		Assumptions: commonAssumptions,
 		RealStub: map[string]string{
 			"utils/tcpbridge/tcp-bridge-frontend (main), tcp-bridge-backend (main), connection": "real (instrumented copy of the working tree)",
@@ -201,7 +201,7 @@ var checks = map[string]*Check{
 	"C18": {
 		Legs:        []Leg{{World: "C18", Weight: 1}},
 		Probes:      []string{"routed", "answered_404", "shared_fallback", "lookup_fault", "registrations_changed_between_lookups"},
-		Rule:        "1..6 backends with 1..3 prefixes each from a menu of nested / overlapping / duplicate / empty prefixes for two users and allUsers; each backend's agent polled 1 s .. 20 min before the requests (or never), clock advanced by the simulator across the 5-minute window; 1..5 concurrent user requests; tracker-lookup RPC faults in a sixth of the runs. Independent specification: longest matching prefix among the user's backends, shared fallback only without a match, routed iff live; ties accept either.",
+		Rule:        "1..6 backends with 1..3 prefixes each from a menu of nested / overlapping / duplicate / empty prefixes for two users and allUsers; each backend's agent polled 1 s .. 20 min before the requests (or never), clock advanced by the simulator across the 5-minute window; 1..5 concurrent user requests; tracker-lookup RPC faults in a sixth of the runs. Independent specification: longest matching prefix among the user's backends, shared fallback only without a match, routed iff live; ties accept either. Also: a second lookup round for the same users and paths 10 s later, after a more specific backend was registered and polled or a backend was deleted; the platform's clean-up cron call before the lookups.",
 		Assumptions: commonAssumptions,
 		RealStub: map[string]string{
 			"app/proxy.go (handlers registered by init), app/store, app/cache, app/types":   "real (instrumented copy of the working tree)",
@@ -214,7 +214,7 @@ var checks = map[string]*Check{
 	"C19": {
 		Legs:        []Leg{{World: "C19", Weight: 2}, {World: "C19/faulty", Weight: 2}, {World: "C19", Race: true, Weight: 1}},
 		Probes:      []string{"response_relayed", "timeout_504", "request_across_part_limit", "response_across_part_limit", "both_respond_writes_fail", "concurrent_clients", "request_exact_multiple_of_part_size", "response_exact_multiple_of_part_size", "repeated_get_not_replayed", "cleanup_cron_between_post_and_pickup"},
-		Rule:        "1..4 concurrent client requests (GET/POST, unique tokens, some sharing user and URL) and a scripted authorised agent (list, fetch, respond after 0..29 s or never) through the App Engine proxy on the stub platform; request/response sizes 0 B .. 2,000,001 B around the 1,000,000-byte inline and part limits; memcache eviction 0/30/100%; faulty leg fails the n-th datastore Put/Get/RunQuery or memcache Set of a kind, including both writes of one respond call. Every handler call must return within 31 s of simulated time.",
+		Rule:        "1..4 concurrent client requests (GET/POST, unique tokens, some sharing user and URL) and a scripted authorised agent (list, fetch, respond after 0..29 s or never) through the App Engine proxy on the stub platform; request/response sizes 0 B .. 2,000,001 B around the 1,000,000-byte inline and part limits; memcache eviction 0/30/100%; faulty leg fails the n-th datastore Put/Get/RunQuery or memcache Set of a kind, including both writes of one respond call. Every handler call must return within 31 s of simulated time. Also: payloads whose stored length is exactly 1, 2 or 3 MB, repeated GETs of one URL whose first answer carried Cache-Control (never replayed), and the platform's clean-up cron call between a respond call and the client's next look.",
 		Assumptions: commonAssumptions,
 		RealStub: map[string]string{
 			"app/proxy.go (handlers registered by init), app/store, app/cache, app/types":   "real (instrumented copy of the working tree)",
